@@ -1463,6 +1463,30 @@ fn thresholds(rng: &mut Rng) -> (Vec<(&'static str, String)>, &'static str) {
     (o, if ordered { "ordered" } else { "adversarial" })
 }
 
+/// C04 rider for scenarios in which ingests really stall: after the store has come to rest every
+/// manifest fragment must pass the manifest verifier (each transaction continues from the previous
+/// output and balances), i.e. an ingest that slept through a compaction recorded the ledger of
+/// the tree as it was when it woke up, not as it was when it went to sleep.
+fn ledger_after_stalls(dir: &std::path::Path) {
+    let mv = match lsmtk::ManifestVerifier::open() {
+        Ok(mv) => mv,
+        Err(e) => violation("harness:manifest-verifier", format!("{e}")),
+    };
+    let mut frags: Vec<PathBuf> = std::fs::read_dir(dir.join("mani"))
+        .map(|d| d.filter_map(|e| e.ok().map(|e| e.path())).collect())
+        .unwrap_or_default();
+    frags.retain(|p| p.file_name().map(|n| n.to_string_lossy().starts_with("MANIFEST") && !n.to_string_lossy().ends_with(".tmp")).unwrap_or(false));
+    frags.sort();
+    for f in frags {
+        if let Err(e) = mv.verify(&f) {
+            violation(
+                &format!("ledger-broken-after-stalled-ingests:{}", crate::panic_class(&format!("{e}").chars().take(110).collect::<String>())),
+                format!("{}: {e}", f.display()),
+            );
+        }
+    }
+}
+
 pub fn kvs_liveness(seed: u64, worker: usize, slot: &Slot) {
     let mut rng = Rng::new(seed);
     let dir = fresh_dir(worker, "live");
@@ -1501,6 +1525,7 @@ pub fn kvs_liveness(seed: u64, worker: usize, slot: &Slot) {
     kvs.verif_wait_flush_idle();
     let work = kvs.verif().work_done();
     stop_daemons(&kvs, daemons, "");
+    ledger_after_stalls(&dir);
     let mut r = slot.lock().unwrap();
     r.order_hash = rng::mix(&[seed, work]);
     r.nontrivial = work > 0;
@@ -1597,6 +1622,7 @@ pub fn tree_liveness(seed: u64, worker: usize, slot: &Slot) {
             Err(_) => violation("daemon-panicked", "compaction thread panicked".into()),
         }
     }
+    ledger_after_stalls(&dir.join("db"));
     let mut r = slot.lock().unwrap();
     r.order_hash = rng::mix(&[seed, work]);
     r.nontrivial = work > 0;
